@@ -72,6 +72,12 @@ CHECKS = {
         note="Trusted: Lean kernel; harness; SQLite enforcing the declared UNIQUE/PK/FK constraints; PostgreSQL paths not executable here. The model follows the implementation where an existing collection name is returned whatever type is asked for (registerCollection returns False).",
         design="DESIGN.md §5 C02",
     ),
+    "C01": dict(
+        technique="Lean 4 proof (refinement of the records + files store to the plain map id -> content along every history with injective placement; kernel-checked collision witnesses where placement is not injective) + history correspondence with the real artifact paths and file sizes on a FileDatastore + read-back oracle on file, in-memory and chained datastores",
+        text="get_refines_spec (after any history of puts and removals in which every put goes to a path no stored dataset uses, get of every id returns exactly the content stored under it, or nothing if it was removed — storing or deleting one dataset never changes another), rel_put / rel_remove / rel_history, and the refutation witnesses collision_overwrites, collision_integrity_error, collision_survives_removal and sanitize_not_injective (known finding C01-a) are proved in Lean 4. The model is driven with the artifact paths and file sizes the real FileDatastore chose; on file, in-memory and chained repositories every stored dataset is read back after every step (put under YAML / JSON / pickle formatters of generated payloads with YAML edge cases, ingest, transfer_from, associate, prune and removeRuns of other datasets) and its dataset type, data ID, run and id are re-read from the registry.",
+        note="Partial: injectivity of the default template over data IDs is false (C01-a, listed as known finding with the theorem sanitize_not_injective); serialisation (PyYAML, json, pickle, astropy) is a trusted carrier validated by the round-trip oracle; InMemoryDatastore hands out the caller's own object by design, so mutation-after-put is probed on the file datastore only. Trusted: Lean kernel; harness; POSIX file semantics.",
+        design="DESIGN.md §5 C01",
+    ),
     "C07": dict(
         technique="Lean 4 proof (transaction programs as an inductive type; run of a failed block restores files, registry and undo stack exactly, for every program, nesting depth and fuel) + correspondence of generated programs on a real Butler + fault injection at every SQL / file boundary of the additive and removal operations with a snapshot-equality oracle",
         text="rollback_exact, effect_all (every program run from any state either commits files/registry extensions that are exactly its own puts or, when it fails, restores the state it started from, with caught inner failures at any depth), failed_block_restores and txn_state_restored (the datastore transaction stack is the same after any block, failed or not) are proved in Lean 4 for every program and every fuel; old_code_leaks / new_code_restores_witness keep the repaired defect C07-a as a kernel-checked regression witness. A second model (TxnCache) covers registry rows behind read-through caches and pruneDatasets inside blocks: Cache.coherent_all (the cached view never differs from the database, for every program), Cache.failed_block_registry_restored (rows, datasets and the cached view are as before a failed block), Cache.files_filter_all / failed_block_files (a block never adds artifacts and removes only what it prunes), Cache.failed_block_files_restored_partial (exact restoration for blocks without pruneDatasets) and the refutation witness Cache.prune_in_failed_block_loses_artifact (known finding C07-c); old_code_stale_cache is the regression witness of repaired defect C07-d. The models are compared with Butler.transaction() programs (nesting <= 3, caught / uncaught failures raised as Exception, BaseException, KeyboardInterrupt, SystemExit or by a refused re-put; inserts of dimension records / dataset types / runs read back through the cached interfaces; pruneDatasets inside blocks) on a real repository; put, put-in-block, ingest(copy, move), import_, transfer_from, pruneDatasets(purge) and removeRuns are run once per SQL / filesystem boundary with a fault injected there and the registry dump, records table and recursive root listing are compared before/after.",
